@@ -302,7 +302,7 @@ func checkC15(w *World, r *Run) {
 		}
 	}
 	// erasure coding addresses every shard: loops bounded by totalShards
-	for _, op := range []string{"PutPart", "openPartReaders", "DeletePart"} {
+	for _, op := range []string{"PutPart", "openPartReaders", "DeletePart", "GetPartIds"} {
 		fn := w.SSAFunc(relErasure, "erasureCodingPartStore."+op)
 		if fn == nil {
 			r.Anchor(ruleFwd, "erasureCodingPartStore."+op)
